@@ -86,14 +86,13 @@ bool polyline::set(const transform &tr, span<const value_store> src)
 		return false;
 	}
 	const value_store *val = src.begin();
-	for (long i = 0, max = src.size(); i < max; ++i) {
+	for (long i = 0, max = src.size(); i < max; ++i, ++val) {
 		const array::content *d = val->data();
 		if (!d || d->content_traits() != traits) {
 			continue;
 		}
 		long length = d->length() / traits->size;
 		_vis.apply(tr, i, span<const double>(static_cast<const double *>(d->data()), length));
-		++val;
 	}
 	// prepare target data
 	if (!(max = _vis.length_user())) {
